@@ -657,7 +657,7 @@ def run_restrict(world, plan):
 
     world.open_gate('done')
     world.run_phase()
-    world.check_loop_health(loop_errors=False)
+    world.check_loop_health(loop_errors=False, internal_errors=True)
     return world.result(nontrivial=True,
                         sample={'restrict': r, 'admitted':
                                 res['conn'] is not None,
